@@ -28,7 +28,7 @@ CHECKS = {
          'calls in OPTIN, OPTOUT (with uncached reads) and BCAST, with flush invalidations, cut/close/wire replacement and expiry; negative configs: '
          'flush invalidations skipped, an invalidation overtaking the reply before it. ' + _BIND +
          'Real runs: lru and NewSimpleCacheAdapter(map) stores x OPTIN / OPTOUT / BCAST(PREFIX) x GET / GETRANGE / JSON.GET / ToStaticTTL commands.',
-    design_ref='DESIGN.md 4.3, 5 C06; proposed/design_cache.md',
+    design_ref='DESIGN.md 4.3, 5 C06; design/cache.md',
     note=_TRUST),
  'C09': dict(
     level='model_checking',
@@ -40,7 +40,7 @@ CHECKS = {
          'the trace is rejected by the repaired specification and accepted by the specification of the code as it is (known finding). The '
          'literal reading "never two requests in flight" (SingleRequest) is violated through late replies of abandoned requests (second known '
          'finding, no wrong data).',
-    design_ref='DESIGN.md 4.3, 5 C09, 7 #16; proposed/design_cache.md',
+    design_ref='DESIGN.md 4.3, 5 C09, 7 #16; design/cache.md',
     note=_TRUST),
  'C11': dict(
     level='model_checking',
@@ -51,6 +51,6 @@ CHECKS = {
          'another caller, miss, expired}; each case is executed on the real client: single wire (lru, adapter, MGetCache / JsonMGetCache helpers, '
          'JSON.GET / JSON.MGET, ToStaticTTL, BCAST, OPTOUT), two multiplexed wires (PipelineMultiplex 1) and a cluster of two scripted nodes '
          '(DoMultiCache / helper batches only: MGET shares identities with GET only on the wire of its first key).',
-    design_ref='DESIGN.md 4.3, 5 C11; proposed/design_cache.md',
+    design_ref='DESIGN.md 4.3, 5 C11; design/cache.md',
     note=_TRUST + ' Cluster!BatchOrder (redirections during a cached batch) belongs to the cluster family and is not covered here.'),
 }
